@@ -386,28 +386,28 @@ fn c03_prefix_enum_deep_n3() {
     prefix_search_all_inputs(&gen::LEX_DEEP_TRIE, &gen::LEX_DEEP_POST, gen::LEX_DEEP_NWORDS, &gen::LEX_DEEP_SURF, 3);
 }
 
-//@ c03_prefix_a_ab {"tier":"thorough","core":false,"desc":"common_prefix_iterator returns exactly the entries whose surface is a prefix (nested prefixes a, ab)","bounds":"input of 2 characters over a 4-letter alphabet (two lexicon letters, one other, one 3-byte char); generator-built trie","symbolic":"input characters, word parameters, lexicon type","functions":["Lexicon::common_prefix_iterator","WordMap::common_prefix_iterator","Trie::common_prefix_iterator","Postings::ids","crawdad::Trie::common_prefix_search"],"fs":2048,"unwind":6,"timeout":600}
+// (not registered: symbolic input through the flat_map iterator stack does not fold; >10 min, no verdict) c03_prefix_a_ab {"tier":"thorough","core":false,"desc":"common_prefix_iterator returns exactly the entries whose surface is a prefix (nested prefixes a, ab)","bounds":"input of 2 characters over a 4-letter alphabet (two lexicon letters, one other, one 3-byte char); generator-built trie","symbolic":"input characters, word parameters, lexicon type","functions":["Lexicon::common_prefix_iterator","WordMap::common_prefix_iterator","Trie::common_prefix_iterator","Postings::ids","crawdad::Trie::common_prefix_search"],"fs":2048,"unwind":6,"timeout":600}
 #[cfg(kani)]
 #[kani::proof]
 fn c03_prefix_a_ab() {
     prefix_search(&gen::LEX_A_AB_TRIE, &gen::LEX_A_AB_POST, gen::LEX_A_AB_NWORDS, &gen::LEX_A_AB_SURF, 2);
 }
 
-//@ c03_prefix_homographs {"tier":"thorough","core":false,"desc":"all rows sharing a surface are returned (homographs ab,a,ab)","bounds":"input of 2 characters; 3 words, two sharing a surface","symbolic":"input characters, word parameters, lexicon type","functions":["Lexicon::common_prefix_iterator","WordMap::common_prefix_iterator","Postings::ids"],"fs":2048,"unwind":6,"timeout":600}
+// (not registered: symbolic input through the flat_map iterator stack does not fold; >10 min, no verdict) c03_prefix_homographs {"tier":"thorough","core":false,"desc":"all rows sharing a surface are returned (homographs ab,a,ab)","bounds":"input of 2 characters; 3 words, two sharing a surface","symbolic":"input characters, word parameters, lexicon type","functions":["Lexicon::common_prefix_iterator","WordMap::common_prefix_iterator","Postings::ids"],"fs":2048,"unwind":6,"timeout":600}
 #[cfg(kani)]
 #[kani::proof]
 fn c03_prefix_homographs() {
     prefix_search(&gen::LEX_AB_A_AB_TRIE, &gen::LEX_AB_A_AB_POST, gen::LEX_AB_A_AB_NWORDS, &gen::LEX_AB_A_AB_SURF, 2);
 }
 
-//@ c03_prefix_deep_n3 {"tier":"thorough","core":false,"desc":"prefix search over a 5-word trie of depth 3","bounds":"input of 3 characters; words a,aa,aab,aba,b","symbolic":"input characters, word parameters, lexicon type","functions":["Lexicon::common_prefix_iterator","WordMap::common_prefix_iterator","Postings::ids","crawdad::Trie::common_prefix_search"],"fs":2048,"unwind":8,"timeout":900}
+// (not registered: symbolic input through the flat_map iterator stack does not fold; >10 min, no verdict) c03_prefix_deep_n3 {"tier":"thorough","core":false,"desc":"prefix search over a 5-word trie of depth 3","bounds":"input of 3 characters; words a,aa,aab,aba,b","symbolic":"input characters, word parameters, lexicon type","functions":["Lexicon::common_prefix_iterator","WordMap::common_prefix_iterator","Postings::ids","crawdad::Trie::common_prefix_search"],"fs":2048,"unwind":8,"timeout":900}
 #[cfg(kani)]
 #[kani::proof]
 fn c03_prefix_deep_n3() {
     prefix_search(&gen::LEX_DEEP_TRIE, &gen::LEX_DEEP_POST, gen::LEX_DEEP_NWORDS, &gen::LEX_DEEP_SURF, 3);
 }
 
-//@ c03_prefix_full2_n3 {"tier":"thorough","core":false,"desc":"prefix search over all 6 surfaces of length <=2 over two letters","bounds":"input of 3 characters","symbolic":"input characters, word parameters, lexicon type","functions":["Lexicon::common_prefix_iterator","WordMap::common_prefix_iterator","Postings::ids"],"fs":2048,"unwind":8,"timeout":1200}
+// (not registered: symbolic input through the flat_map iterator stack does not fold; >10 min, no verdict) c03_prefix_full2_n3 {"tier":"thorough","core":false,"desc":"prefix search over all 6 surfaces of length <=2 over two letters","bounds":"input of 3 characters","symbolic":"input characters, word parameters, lexicon type","functions":["Lexicon::common_prefix_iterator","WordMap::common_prefix_iterator","Postings::ids"],"fs":2048,"unwind":8,"timeout":1200}
 #[cfg(kani)]
 #[kani::proof]
 fn c03_prefix_full2_n3() {
